@@ -63,6 +63,10 @@ func ROpsFor(api string, n, readChunk int) []ROp {
 	if readChunk <= 0 {
 		readChunk = 1
 	}
+	// at most ~40 reads per message: a larger message is read in proportionally larger pieces
+	if n/readChunk > 40 {
+		readChunk = n/40 + 1
+	}
 	for got := 0; got < n; got += readChunk {
 		ops = append(ops, ROp{Op: "read", N: readChunk})
 	}
